@@ -104,11 +104,12 @@ def render(fs):
     return out.getvalue()
 
 
-def run_job(job):
+def run_job(job, fs=None, finish=True):
     """A FiltersSet job for the pristine worker (C13): list of ('addfilter', name, conditions, actions) ...;
-    returns [outcome per op..., rendered text]."""
+    returns [outcome per op..., rendered text].  With fs given the operations run on that (long-lived) set."""
     from sievelib import factory
-    fs = factory.FiltersSet("job")
+    if fs is None:
+        fs = factory.FiltersSet("job")
     outs = []
     for op in job:
         try:
@@ -121,10 +122,16 @@ def run_job(job):
                 outs.append(repr(fs.disablefilter(op[1])))
             elif kind == "enablefilter":
                 outs.append(repr(fs.enablefilter(op[1])))
+            elif kind == "updatefilter":
+                conds = [tuple(c) for c in op[3]]
+                acts = [tuple(a) for a in op[4]]
+                outs.append(repr(fs.updatefilter(op[1], op[2], conds, acts)))
             else:
                 outs.append("unknown op")
         except Exception as e:  # noqa
             outs.append("raised %s: %s" % (type(e).__name__, e))
+    if not finish:
+        return outs
     try:
         outs.append(render(fs))
         outs.append(repr(fs.requires))
